@@ -312,6 +312,10 @@ fn contexts() -> Vec<(String, Context)> {
         // map literal built from a missing variable): the key exists, its value is undefined
         // characters the escaper rewrites (the autoescaped placements)
         ("a={b:{c:<&>}}", V::map(&[("b", V::map(&[("c", V::s("<&>"))]))])),
+        // a SAFE string stored in a map (a `| safe` result, a captured block, a component result or
+        // Value::safe_string put into a map): the mark belongs to the value the path ends on
+        ("a={b:{c:safe(<i>)}}", V::map(&[("b", V::map(&[("c", V::Safe("<i>".into()))]))])),
+        ("a={b:safe(<b>)}", V::map(&[("b", V::Safe("<b>".into()))])),
         ("a={b:undefined}", V::map(&[("b", V::Undef)])),
         ("a={b:{c:undefined}}", V::map(&[("b", V::map(&[("c", V::Undef)]))])),
     ] {
